@@ -199,6 +199,26 @@ func CheckC12(e *fw.Env, l *Lab) {
 		if e.Thorough() {
 			steps = 200 + e.R.Intn(1800)
 		}
+		// a few transfers of coins that only the first channel holds: ueure and uUSDC (the latter
+		// differs from uusdc in letter case only: two denominations, two entries)
+		for k := 0; k < 1+e.R.Intn(4); k++ {
+			d := []string{world.UP, world.EURE, world.USDC}[e.R.Intn(3)]
+			amt := big.NewInt(int64(1000 + e.R.Intn(1_000_000)))
+			s := &spec.Spec{Route: spec.Route{Kind: "internal", To: l.W.K("rcpt3").String()}}
+			forward := new(big.Int).Set(amt)
+			if e.R.Intn(2) == 0 {
+				f := []spec.Fee{{Recipient: l.W.K("fee2").String(), IsBPS: true, BPS: uint64(1 + e.R.Intn(500))}}
+				s.HasFee, s.Fees = true, f
+				forward = model.Fees(amt, f).Forward
+			}
+			t := run.Transfer{Pair: l.W.Channels[0], Denom: d, Amount: amt.String(), Sender: l.W.K("bob").String(), Receiver: OrbiterReceiver(), Spec: s}
+			o := run.Do(l.W, ctx, t, run.Mode{Kind: "H"})
+			e.Res.Eval()
+			Universal(e.Res, o)
+			if o.Success() {
+				sh.Record(o, forward)
+			}
+		}
 		trail := History(e, l, ctx, sh, steps, 5, func(step int, trail []HistOp) bool {
 			return CompareStats(e.Res, l.W, ctx, sh, map[string]any{"history": h, "step": step, "last_ops": trail})
 		})
